@@ -34,6 +34,9 @@ Proof. vm_compute. reflexivity. Qed.
 (* the request's read deadline does not stay armed during the tunnel *)
 Lemma ob_read_deadline_cleared : tunnel_clears_read_deadline = true.
 Proof. vm_compute. reflexivity. Qed.
+(* ... nor the write deadline armed for writing the reply head *)
+Lemma ob_write_deadline_cleared : response_write_deadline_cleared = true.
+Proof. vm_compute. reflexivity. Qed.
 (* the reply written for a CONNECT is a 2xx head and nothing else *)
 Lemma ob_connect_reply_is_2xx_head : reply_ok connect_ok_response = true.
 Proof. vm_compute. reflexivity. Qed.
@@ -41,7 +44,7 @@ Proof. vm_compute. reflexivity. Qed.
 Lemma shape_ok_tables g : (0 <= g)%Z -> shape_ok (tables_shape g).
 Proof.
   intro Hg. unfold shape_ok.
-  refine (conj _ (conj _ (conj _ (conj _ (conj _ (conj _ (conj _ (conj _ _)))))))).
+  refine (conj _ (conj _ (conj _ (conj _ (conj _ (conj _ (conj _ (conj _ (conj _ _))))))))).
   - exact ob_drain_before_copiers.
   - exact ob_drained_bytes_not_reread.
   - exact ob_closewrite_after_copy.
@@ -51,6 +54,7 @@ Proof.
   - exact ob_closes_upstream.
   - exact ob_closes_client.
   - exact ob_read_deadline_cleared.
+  - exact ob_write_deadline_cleared.
 Qed.
 
 (* a concrete run with early data, a banner, a half-close in each direction and both closes *)
@@ -79,33 +83,33 @@ Lemma ob_grace_cut_witness : grace_cut_ok = true.
 Proof. vm_compute. reflexivity. Qed.
 
 (* ---- each shape hypothesis is needed: the same LTS with one shape flipped breaks the property ---- *)
-Definition good_shape : shape := mkShape 4 10 true false true true true true true.
+Definition good_shape : shape := mkShape 4 10 true false true true true true true true.
 Definition run_from (sh : shape) (e : list N) (tr : list label) : option state := run sh (init e [] []) tr.
 
 (* without drainBuffer between the reply and the copiers the early bytes never arrive *)
 Lemma ob_shape_no_drain_loses_early :
-  match run_from (mkShape 4 10 false false true true true true true) [7;8]
+  match run_from (mkShape 4 10 false false true true true true true true) [7;8]
           [LReply; LShutdown CT; LReadEOF CT; LCloseWrite CT; LShutdown TC; LReadEOF TC; LCloseWrite TC; LClose Up; LClose Down] with
   | Some s => is_nil (d_rcv (s_ct s)) && d_eof (s_ct s) && str_eqb (d_all (s_ct s)) [7;8]
   | None => false end = true.
 Proof. vm_compute. reflexivity. Qed.
 (* peeking in drainBuffer while the upstream copier reads the same bufio reader duplicates them *)
 Lemma ob_shape_reread_duplicates_early :
-  match run_from (mkShape 4 10 true true true true true true true) [7;8]
+  match run_from (mkShape 4 10 true true true true true true true true) [7;8]
           [LReply; LDrain [7;8]; LRead CT [7;8]; LDeliver CT [7;8]] with
   | Some s => str_eqb (d_rcv (s_ct s)) [7;8;7;8]
   | None => false end = true.
 Proof. vm_compute. reflexivity. Qed.
 (* without CloseWrite after the copy the sink never sees end-of-stream while the tunnel is open *)
 Lemma ob_shape_no_closewrite_no_eof :
-  match run_from (mkShape 4 10 true false false true true true true) []
+  match run_from (mkShape 4 10 true false false true true true true true) []
           [LReply; LShutdown CT; LReadEOF CT; LCloseWrite CT] with
   | Some s => negb (d_eof (s_ct s)) && cop_eqb (d_cop (s_ct s)) Done
   | None => false end = true.
 Proof. vm_compute. reflexivity. Qed.
 (* returning from bicopy after the first copier cuts the other direction at once *)
 Lemma ob_shape_wait_first_cuts_other :
-  match run_from (mkShape 4 10 true false true false true true true) []
+  match run_from (mkShape 4 10 true false true false true true true true) []
           [LReply; LWrite TC [5]; LShutdown CT; LReadEOF CT; LCloseWrite CT; LClose Down] with
   | Some s => d_eof (s_tc s) && is_nil (d_rcv (s_tc s)) && negb (d_wcl (s_tc s))
   | None => false end = true.
@@ -120,8 +124,17 @@ Proof. vm_compute. reflexivity. Qed.
 (* a read deadline left armed lets the client-side copier fail at any time: the target is shown
    end-of-stream in the middle of the client's data *)
 Lemma ob_shape_armed_deadline_cuts_client_stream :
-  match run_from (mkShape 4 10 true false true true true true false) []
+  match run_from (mkShape 4 10 true false true true true true false true) []
           [LReply; LWrite CT [1;2]; LAbort CT; LCloseWrite CT] with
   | Some s => d_eof (s_ct s) && is_nil (d_rcv (s_ct s)) && negb (d_wcl (s_ct s)) && negb (s_forced s)
+  | None => false end = true.
+Proof. vm_compute. reflexivity. Qed.
+
+(* a write deadline left armed on the client connection lets the downstream copier fail: the
+   client is shown end-of-stream with the target's later bytes missing *)
+Lemma ob_shape_armed_write_deadline_cuts_target_stream :
+  match run_from (mkShape 4 10 true false true true true true true false) []
+          [LReply; LWrite TC [1;2]; LRead TC [1;2]; LAbort TC; LCloseWrite TC] with
+  | Some s => d_eof (s_tc s) && is_nil (d_rcv (s_tc s)) && negb (d_wcl (s_tc s)) && negb (s_forced s)
   | None => false end = true.
 Proof. vm_compute. reflexivity. Qed.
